@@ -111,6 +111,10 @@ def main():
                                     extra=("-O1", "-fsanitize-coverage=trace-pc"))),
             ("checked", build.Cfg("g++", "14", "plain", defs=("SBEPP_ENABLE_ASSERTS_WITH_HANDLER", "VRT_STEP_COUNTER"),
                                   extra=("-O1", "-fsanitize-coverage=trace-pc")))]
+    # unoptimised production build: nothing the visitor merely evaluates and discards is optimised away, so a read
+    # of a not yet validated byte really happens (at -O1 the dead loads of ignored fields vanish)
+    cfgs.append(("unchecked", build.Cfg("g++", "11", "O0", defs=("SBEPP_DISABLE_ASSERTS", "VRT_STEP_COUNTER"),
+                                        extra=("-fsanitize-coverage=trace-pc",))))
     if not quick:
         cfgs.append(("unchecked", build.Cfg("g++", "23", "plain", defs=("SBEPP_DISABLE_ASSERTS", "VRT_STEP_COUNTER"),
                                             extra=("-O1", "-fsanitize-coverage=trace-pc"))))
